@@ -915,6 +915,10 @@ func runC15(env *Env) {
 	for shape := range cyclicShapes {
 		g.cyclicCase(shape)
 	}
+	g.sharedGrid()
+	g.jsonStringGrid()
+	g.boundaryGrid()
+	g.orderHistGrid()
 	g.specialGrid()
 	for how := 4; how <= 7; how++ {
 		g.protoObjCase(how)
@@ -954,7 +958,9 @@ func runC15(env *Env) {
 			g.callSeqCase(0)
 			continue
 		case k < 17:
-			if c := r.Intn(4); c == 3 {
+			if c := r.Intn(5); c == 4 {
+				g.sharedRandomCase()
+			} else if c == 3 {
 				g.callThisCase(r.Intn(2), r.Intn(len(thisSrcs)), r.Intn(11))
 			} else if c == 0 {
 				g.protoObjCase(4 + r.Intn(4))
@@ -1006,6 +1012,8 @@ type jnode struct {
 
 func (n *jnode) coq(allFloat bool) string {
 	switch n.t {
+	case "ref": // a reference to a shared node: the model sees the unfolded data
+		return n.elems[0].coq(allFloat)
 	case "undef":
 		return "JUndef"
 	case "null":
@@ -1044,6 +1052,8 @@ func (n *jnode) coq(allFloat bool) string {
 // JS source text whose evaluation gives the node with the modelled payload types
 func (n *jnode) js() string {
 	switch n.t {
+	case "ref":
+		return n.s
 	case "undef":
 		return "undefined"
 	case "null":
@@ -1152,6 +1162,9 @@ func (n *jnode) json() string {
 }
 
 func (n *jnode) depth() int {
+	if n.t == "ref" {
+		return n.elems[0].depth()
+	}
 	d := 0
 	for _, e := range n.elems {
 		if k := e.depth(); k > d {
@@ -1383,8 +1396,17 @@ func (g *gen) exportOb(via int, src string) (string, string) {
 	var err error
 	p := guard(func() {
 		switch via {
-		case 0, 1:
+		case 0, 1, 6:
 			v, err = g.vm.Run(src)
+		case 7:
+			if _, err = g.vm.Run("exported = " + src); err == nil {
+				v, err = g.vm.Get("exported")
+			}
+		case 8:
+			g.sunk = otto.Value{}
+			if _, err = g.vm.Run("sink(" + src + ")"); err == nil {
+				v = g.sunk
+			}
 		case 4, 5:
 			v, err = g.vmP.Run(src)
 		case 2:
@@ -1416,7 +1438,7 @@ func (g *gen) exportOb(via int, src string) (string, string) {
 	return "(OVal " + gvOf(x) + ")", fmt.Sprintf("%#v", x)
 }
 
-var viaNames = []string{"Run", "JSON.parse", "global + Otto.Get", "argument of a Go function", "Run under polluted prototypes", "JSON.parse under polluted prototypes"}
+var viaNames = []string{"Run", "JSON.parse", "global + Otto.Get", "argument of a Go function", "Run under polluted prototypes", "JSON.parse under polluted prototypes", "Run (shared nodes)", "global + Otto.Get (shared nodes)", "argument of a Go function (shared nodes)"}
 
 func (g *gen) treeCase(n *jnode, via int) {
 	src := "(" + n.js() + ")"
@@ -3208,4 +3230,206 @@ func (g *gen) cyclicCase(shape int) {
 		shown = fmt.Sprintf("child process died (%v): %s", err, shown)
 	}
 	g.env.Add(fmt.Sprintf("CCyclic %d %s %s", shape, cyclicUnrolled[shape], ob), fmt.Sprintf("Export of a cyclic graph in a child process: %s -> %s", cyclicShapes[shape], shown), "export-cyclic", true)
+}
+
+
+// ====================== shared (not cyclic) nodes: one script object reachable along several paths ======================
+
+func refTo(name string, target *jnode) *jnode { return &jnode{t: "ref", s: name, elems: []*jnode{target}} }
+
+// source: the shared nodes are bound to variables s0, s1, ... (a later one may refer to an earlier one), the root uses them
+func (g *gen) sharedCase(shared []*jnode, root *jnode, via int) {
+	var b strings.Builder
+	b.WriteString("(function(){ ")
+	for i, sh := range shared {
+		fmt.Fprintf(&b, "var s%d = %s; ", i, sh.js())
+	}
+	fmt.Fprintf(&b, "return %s })()", root.js())
+	src := b.String()
+	ob, shown := g.exportOb(via, src)
+	g.env.Add(fmt.Sprintf("CExportTree %d %s %s", via, root.coq(false), ob),
+		fmt.Sprintf("export via %s: %s -> %s", viaNames[via], src, shown), "export-shared", true)
+}
+
+func (g *gen) sharedShapes() []*jnode {
+	lit := func(i int64) *jnode { return &jnode{t: "int", ik: "int64", i: i} }
+	str := func(s string) *jnode { return &jnode{t: "str", s: s} }
+	arr := func(e ...*jnode) *jnode { return &jnode{t: "arr", elems: e} }
+	obj := func(k []string, e ...*jnode) *jnode { return &jnode{t: "obj", keys: k, elems: e} }
+	null := &jnode{t: "null"}
+	return []*jnode{
+		arr(lit(1), str("x"), &jnode{t: "bool", b: true}), // heterogeneous
+		arr(),                   // empty
+		arr(null),               // all null
+		arr(null, lit(1)),       // contains null
+		arr(lit(1), lit(2)),     // homogeneous ints
+		arr(str("a"), str("b")), // homogeneous strings
+		arr(lit(1), &jnode{t: "float", f: 1.5}),
+		arr(&jnode{t: "undef"}),
+		arr(lit(1), &jnode{t: "hole"}, lit(2)),
+		obj(nil),
+		obj([]string{"a"}, lit(1)),
+		obj([]string{"a", "b"}, arr(lit(1)), null),
+		arr(arr(lit(1)), arr(str("a"))), // nested, mixed inner types
+		arr(arr(), arr()),
+		arr(obj([]string{"k"}, arr())),
+	}
+}
+
+// every shared shape in every position pattern
+func (g *gen) sharedGrid() {
+	arr := func(e ...*jnode) *jnode { return &jnode{t: "arr", elems: e} }
+	obj := func(k []string, e ...*jnode) *jnode { return &jnode{t: "obj", keys: k, elems: e} }
+	lit := func(i int64) *jnode { return &jnode{t: "int", ik: "int64", i: i} }
+	for i, sh := range g.sharedShapes() {
+		s := refTo("s0", sh)
+		patterns := []*jnode{
+			obj([]string{"first", "list", "second"}, s, arr(s, s), s),
+			arr(s, s),
+			obj([]string{"a", "c"}, obj([]string{"b"}, s), s),
+			arr(arr(s), arr(s)),
+			arr(s, lit(1), s),
+			obj([]string{"left", "right"}, s, s),
+		}
+		for k, root := range patterns {
+			g.sharedCase([]*jnode{sh}, root, []int{6, 7, 8}[(i+k)%3])
+		}
+		// a shared node that itself holds a shared node twice, and is used twice
+		inner := refTo("s0", sh)
+		mid := obj([]string{"p", "q"}, inner, arr(inner))
+		m := refTo("s1", mid)
+		g.sharedCase([]*jnode{sh, mid}, obj([]string{"m1", "m2", "s"}, m, m, refTo("s0", sh)), 6)
+	}
+}
+
+func (g *gen) sharedRandomCase() {
+	r := g.env.Rng
+	nshared := r.Intn(3) + 1
+	shared := make([]*jnode, nshared)
+	pickRef := func(upto int) *jnode { k := r.Intn(upto); return refTo(fmt.Sprintf("s%d", k), shared[k]) }
+	var build func(depth, upto int) *jnode
+	build = func(depth, upto int) *jnode {
+		if upto > 0 && r.Intn(3) == 0 {
+			return pickRef(upto)
+		}
+		if depth <= 0 {
+			return g.leaf(Pick(r, leafKinds))
+		}
+		if r.Intn(2) == 0 {
+			n := r.Intn(4)
+			a := &jnode{t: "arr"}
+			for i := 0; i < n; i++ {
+				a.elems = append(a.elems, build(depth-1, upto))
+			}
+			return a
+		}
+		ks := g.keys(r.Intn(4))
+		o := &jnode{t: "obj", keys: ks}
+		for range ks {
+			o.elems = append(o.elems, build(depth-1, upto))
+		}
+		return o
+	}
+	for i := range shared {
+		for {
+			shared[i] = build(2, i)
+			if shared[i].t == "arr" || shared[i].t == "obj" {
+				break
+			}
+		}
+	}
+	var root *jnode
+	for {
+		root = build(3, nshared)
+		if root.t == "arr" || root.t == "obj" {
+			break
+		}
+	}
+	g.sharedCase(shared, root, Pick(r, []int{6, 6, 7, 8}))
+}
+
+// ====================== MarshalJSON of strings: every byte and rune class that needs escaping ======================
+
+func (g *gen) jsonStringGrid() {
+	paths := []int{0, 3, 5, 6, 1, 7}
+	k := 0
+	add := func(s string) {
+		g.scalarCases(paths[k%len(paths)], gscalar{kind: "string", s: s}, true)
+		k++
+	}
+	for c := 0; c <= 0x1f; c++ {
+		add("c" + string(rune(c)) + "d")
+	}
+	for _, c := range []rune{0x7f, 0x80, 0x85, 0x9f, 0xa0, 0xad, 0x2028, 0x2029, 0xfeff, 0xfffe, 0xffff, 0xe000, 0xd7ff,
+		0xe0001, 0x1d173, 0xf0000, 0x10fffe, 0x10ffff, 0x1f600, 0x10000, 0x1fffe} {
+		add(string(c))
+		add("a" + string(c) + "\"")
+	}
+	add("\a\v\x00")
+	add("\\a\\v\\x07\\U0001F600")
+	add("</script>&<>")
+}
+
+
+// ====================== pinned: the int64 saturation boundary of ToInteger, on every numeric route ======================
+
+func (g *gen) boundaryGrid() {
+	two63 := float64(1 << 63)
+	k := 0
+	paths := []int{0, 1, 2, 3, 5, 6, 7, 10}
+	add := func(s gscalar) { g.scalarCases(paths[k%len(paths)], s, s.kind != "float32"); k++ } // text of a float32 payload: not modelled
+	for _, f := range []float64{two63, -two63, math.Nextafter(two63, 0), math.Nextafter(two63, math.Inf(1)), math.Nextafter(-two63, 0), math.Nextafter(-two63, math.Inf(-1)),
+		two63 * 2, math.Nextafter(two63*2, 0), 1 << 53, 1<<53 + 2, -(1 << 53), 1 << 31, 1 << 32, -(1 << 31) - 1} {
+		add(gscalar{kind: "float64", f64: f})
+	}
+	for _, u := range []uint64{1 << 63, 1<<63 - 1, 1<<63 + 1, 1<<63 - 512, 1<<63 - 513, 1<<63 + 1024, 1<<63 + 1025, math.MaxUint64, math.MaxUint64 - 1023, math.MaxUint64 - 1024} {
+		add(gscalar{kind: "uint64", u: u})
+		add(gscalar{kind: "uint", u: u})
+	}
+	for _, i := range []int64{math.MaxInt64, math.MinInt64, math.MaxInt64 - 511, math.MaxInt64 - 512, math.MinInt64 + 1, math.MinInt64 + 512, math.MinInt64 + 513} {
+		add(gscalar{kind: "int64", i: i})
+		add(gscalar{kind: "int", i: i})
+	}
+	for _, f := range []float32{1 << 63, -(1 << 63), 1 << 62, 1 << 64} {
+		add(gscalar{kind: "float32", f32: f})
+	}
+}
+
+// ====================== pinned: arrays filled out of index order, then exported ======================
+
+func (g *gen) orderHistGrid() {
+	lit := func(i int64) *jnode { return &jnode{t: "int", ik: "int64", i: i} }
+	str := func(s string) *jnode { return &jnode{t: "str", s: s} }
+	type step struct {
+		idx int
+		v   *jnode
+	}
+	plans := [][]step{
+		{{2, lit(30)}, {0, lit(10)}, {1, lit(20)}},
+		{{3, str("d")}, {1, str("b")}, {2, str("c")}, {0, str("a")}},
+		{{1, lit(1)}, {0, str("zero")}},
+		{{4, lit(4)}, {2, lit(2)}, {0, lit(0)}},
+		{{2, &jnode{t: "arr", elems: []*jnode{lit(2)}}}, {1, &jnode{t: "arr", elems: []*jnode{lit(1)}}}, {0, &jnode{t: "arr", elems: []*jnode{lit(0)}}}},
+		{{10, lit(10)}, {9, lit(9)}, {1, lit(1)}, {2, lit(2)}},
+	}
+	for pi, plan := range plans {
+		for variant := 0; variant < 2; variant++ {
+			var src strings.Builder
+			src.WriteString("(function(){ var a = []; ")
+			ops := []string{}
+			if variant == 1 { // the same through an object-literal-like initial element and a later delete
+				src.WriteString("a.push(0); ")
+				ops = append(ops, "APush "+lit(0).coq(false))
+			}
+			for _, st := range plan {
+				fmt.Fprintf(&src, "a[%d] = %s; ", st.idx, st.v.js())
+				ops = append(ops, fmt.Sprintf("ASetIdx %d %s", st.idx, st.v.coq(false)))
+			}
+			src.WriteString("return a })()")
+			via := []int{0, 2, 3}[(pi+variant)%3]
+			ob, shown := g.exportOb(via, src.String())
+			g.env.Add(fmt.Sprintf("CExportHist [] %s %s", Clist(ops), ob),
+				fmt.Sprintf("export after history (%s): %s -> %s", viaNames[via], src.String(), shown), "export-history", true)
+		}
+	}
 }
